@@ -64,6 +64,16 @@ func dupInv() Scenario {
 		Stim{T: 500, Stim: "close"})
 }
 
+// closeRace (F43, observed, not modelled): an API call started at the very instant the session
+// ends passes its Connected() check and then sends on the channel Close() has closed.
+func closeRace(k int) Scenario {
+	st := []Stim{{T: 1, Stim: "close"}}
+	for j := 0; j <= k; j++ {
+		st = append(st, Stim{T: 2 + j, Stim: "api", G: 1 + j, Op: "subscribe", Name: fmt.Sprintf("t%d", j)})
+	}
+	return wScenario(9040+k, Cfg{Timeout: 100, GoodbyeReply: 8, StallAfterGoodbye: true}, 0, st...)
+}
+
 // witnessReplays replays the Lean witnesses against the real client and checks
 // that it fails the way the model says.
 func witnessReplays(dir string, sum *hcommon.Summary) []hcommon.Disagreement {
@@ -200,6 +210,33 @@ func witnessReplays(dir string, sum *hcommon.Summary) []hcommon.Disagreement {
 		case wf != stuck(3):
 			out = append(out, hcommon.Disagreement{Input: concreteOf(sc, r), Impl: r.Out, Model: w[3], SpecViolation: wf,
 				Detail: fmt.Sprintf("dup-invocation witness: implementation wedged=%v, model stuck=%v", wf, stuck(3))})
+		}
+	}
+	// F43: API call racing with Close (guarded in the generator; not in the Lean model)
+	{
+		hits := 0
+		var hr Result
+		var hsc Scenario
+		for k := 0; k < 2; k++ {
+			sc := closeRace(k)
+			r, ok, tail := run1(sc)
+			if !ok {
+				if strings.Contains(tail, "closed channel") {
+					hits++
+				}
+				continue
+			}
+			if strings.Contains(r.Panic, "closed channel") {
+				if hits == 0 {
+					hr, hsc = r, sc
+				}
+				hits++
+			}
+		}
+		sum.Count(fmt.Sprintf("witness.closerace.panicked-%d-of-2", hits))
+		if hits > 0 {
+			out = append(out, hcommon.Disagreement{Input: concreteOf(hsc, hr), Impl: hr.Panic, SpecViolation: true, Finding: findingCloseRace,
+				Detail: fmt.Sprintf("an API call blocked in its send (the router stopped reading after GOODBYE) when Close() closes the send channel panics: %s (%d of 2 replays)", hr.Panic, hits)})
 		}
 	}
 	return out
